@@ -845,6 +845,30 @@ Proof.
      apply Qc_is_canon; vm_compute; reflexivity).
 Qed.
 
+(** ** Tie to the source by translation: the nodal column algebra of Model/PrimEq.v that this property reasons about
+    is the code of dinosaur/primitive_equations.py (transcribed from the AST on every run by tools/translate/gen_primeq.py). *)
+From Dino Require Import Model.Filters Model.PrimEq Model.Implicit Gen.PrimEqSrc Thm.PrimEqSrc.
+Theorem C12_model_is_source {F : Type} {o : Ops F} {Fc : FieldC o} (c : @PEcfg F) (m : @Moist F)
+    (inc_va : bool) (x : @NCol F) (Tf g vg s q qc qi rt : nat -> F) (k : nat) :
+  u_dot_grad x k = u_dot_grad_src x k /\
+  t_omega_over_sigma_sp c Tf g vg k = t_omega_over_sigma_sp_src c Tf g vg k /\
+  combined_u c inc_va x (rt_dry c x) k = combined_u_src c inc_va x k /\
+  combined_v c inc_va x (rt_dry c x) k = combined_v_src c inc_va x k /\
+  kinetic x k = kinetic_src x k /\
+  temp_vertical_tendency c inc_va x k = temp_vertical_tendency_src c inc_va x k /\
+  hsa_nodal x s k = hsa_nodal_src x s k /\
+  hsa_mu x s k = hsa_u_src x s k * n_sec2 x /\
+  hsa_mv x s k = hsa_v_src x s k * n_sec2 x /\
+  temp_adiabatic c x k = temp_adiabatic_src c x k /\
+  log_pressure_tendency c x = log_pressure_tendency_src c x /\
+  moisture_contribution c m q k = moisture_contribution_src c m q k /\
+  rt_moist c m x q k = rt_moist_src c x (moisture_contribution c m q) k /\
+  rt_cloud c m x q qc qi k = rt_cloud_src c x (moisture_contribution c m q) qc qi k /\
+  combined_u c inc_va x rt k = combined_u_moist_src c inc_va x q rt k /\
+  combined_v c inc_va x rt k = combined_v_moist_src c inc_va x q rt k /\
+  temp_adiabatic_moist c m x q k = temp_adiabatic_moist_src c m x q k.
+Proof. exact (primeq_model_is_source c m inc_va x Tf g vg s q qc qi rt k). Qed.
+
 Print Assumptions C12_factor_homomorphism.
 Print Assumptions C12_welldim_homogeneous.
 Print Assumptions C12_scale_independence.
@@ -878,3 +902,4 @@ Print Assumptions C12_whole_state_step_covariant.
 Print Assumptions C12_whole_state_trajectory_covariant.
 Print Assumptions C12_whole_state_inverse_hyps_satisfiable.
 Print Assumptions C12_whole_state_tracers_covariant.
+Print Assumptions C12_model_is_source.
